@@ -78,14 +78,14 @@ def rule_r1(ck, prog, cls_suffix, method):
     return n_sites
 
 
-def rule_r2(ck, prog, cg, roles):
-    """WHO: Export call sites reachable only from the worker thread entry"""
+def rule_r2(ck, prog, cg, roles, rule='C03.R2', which=EXPORTER_EXPORT, what='Export'):
+    """WHO: exporter call sites reachable only from the worker thread entry"""
     cls = roles.cls
     funcs = roles.funcs
     export_fns = []
     for f in funcs:
         for n in f.nodes:
-            if roles.is_exporter_call(f, n, EXPORTER_EXPORT):
+            if roles.is_exporter_call(f, n, which):
                 export_fns.append((f, n))
     if not export_fns:
         raise AnalysisBroken('%s: no call of the exporter\'s Export found' % roles.short)
@@ -114,17 +114,17 @@ def rule_r2(ck, prog, cg, roles):
                 if q.startswith('opentelemetry::nostd::function_ref') or q.startswith('std::'):
                     continue  # type-erasure trampoline instantiated for the closure, not a caller of its own
                 outside.append(prog.funcs[k])
-        site = 'export-call-in:%s' % ('lambda' if ef.d.get('lambda') else ef.name)
+        site = '%s-call-in:%s' % (strip_targs(en.get('c', '')).rsplit('::', 1)[-1].lower(), 'lambda' if ef.d.get('lambda') else ef.name)
         if bad or outside:
             who = bad[0] if bad else outside[0]
             pth = cg.path(who.key, ef.key) or []
-            ck.violation('C03.R2', ef, site, en,
-                         'exporter Export is reachable from %s on the caller\'s thread, not only from the worker' % short(who),
+            ck.violation(rule, ef, site, en,
+                         'exporter %s is reachable from %s on the caller\'s thread, not only from the worker' % (what, short(who)),
                          path=' -> '.join(short(prog.funcs[k]) for k in pth))
         elif not from_worker:
-            ck.inconclusive('C03.R2', ef, site, en, 'Export site is not reachable from any thread entry of the class')
+            ck.inconclusive(rule, ef, site, en, 'Export site is not reachable from any thread entry of the class')
         else:
-            ck.holds('C03.R2', ef, site, en, 'only reachable from worker entry %s' %
+            ck.holds(rule, ef, site, en, 'only reachable from worker entry %s' %
                      ','.join(short(prog.funcs[t]) for t in entries if ef.key in cg.reachable([t], follow_threads=True)))
     return n
 
